@@ -50,6 +50,7 @@ type ChildSpec struct {
 	DieDelayMs    int    `json:"die_delay_ms,omitempty"`  // delay between the fatal request and the death
 	HangGetState  bool   `json:"hang_getstate,omitempty"` // after the idle state was reported once GetState never answers, the first such call is fatal
 	Wrap          bool   `json:"wrap,omitempty"`          // the task leader is a wrapper; the device is its child and SURVIVES the wrapper's death, keeping the connection open
+	User          bool   `json:"user,omitempty"` // the command info names a user (the current one): prepareTaskCmd's credential branch
 	BadCommand    bool   `json:"bad_command,omitempty"`
 	Noise         bool   `json:"noise,omitempty"`
 }
@@ -63,6 +64,10 @@ type Step struct {
 	What  string `json:"what,omitempty"`  // await: ready | terminal | child-started
 	N     int    `json:"n,omitempty"`     // await terminal/child-started: how many
 	Async bool   `json:"async,omitempty"` // do not wait for the op to return before the next step
+	// storm: transition requests with a payload of PayloadKB (arguments map) fired in the background
+	// at these offsets (ms from the step), each through UnmarshalTransition + Transition like any other
+	Offsets   []int `json:"offsets,omitempty"`
+	PayloadKB int   `json:"payload_kb,omitempty"`
 }
 
 type Case struct {
@@ -79,7 +84,8 @@ type Case struct {
 	JudgeSurvivors bool `json:"judge_survivors"`
 	ObserveMs      int  `json:"observe_ms"` // silence window kept after everything returned
 	// filled by the batch child
-	Port  int    `json:"port,omitempty"`
+	UserName string `json:"user_name,omitempty"` // Child.User and the harness runs as root
+	Port     int    `json:"port,omitempty"`
 	Token string `json:"token,omitempty"`
 	Dir   string `json:"dir,omitempty"`
 	Bin   string `json:"bin,omitempty"`
@@ -135,12 +141,15 @@ var (
 	cvIgnLing  = childVar{"ignores-signals-lingers", func(ch *ChildSpec) { ch.Ignore = true; ch.Linger = true }}
 	cvLinger   = childVar{"lingers", func(ch *ChildSpec) { ch.Linger = true }}
 	cvTermExit = childVar{"exits-1-on-term", func(ch *ChildSpec) { ch.TermExit = 1; ch.Linger = true }}
+	cvUser     = childVar{"user", func(ch *ChildSpec) { ch.User = true }}
+	cvUserGC   = childVar{"user-grandchild", func(ch *ChildSpec) { ch.User = true; ch.Grandchild = "plain" }}
 )
 
 func secondary(r *rand.Rand, c *Case) {
 	ch := &c.Child
 	ch.Noise = r.Intn(3) == 0
 	ch.Shell = r.Intn(2) == 0
+	ch.User = r.Intn(4) == 0
 	if c.controllable() {
 		ch.Impl = "fakeocc"
 	} else if ch.Impl == "" {
@@ -170,7 +179,7 @@ func basicTemplates() []template {
 		}
 		return append(s, stCONFIGURE, stSTART)
 	}
-	for _, cv := range []childVar{cvPlain, cvIgnore, cvGC, cvGCIgnore} {
+	for _, cv := range []childVar{cvPlain, cvIgnore, cvGC, cvGCIgnore, cvUser, cvUserGC} {
 		add("stop-running", cv, func(r *rand.Rand, c *Case) {
 			c.Steps = append(pre(r), sleepStep(u(r, 0, 400)), stSTOP)
 			c.KilledOnRequest, c.JudgeSurvivors = true, true
@@ -198,7 +207,7 @@ func basicTemplates() []template {
 			c.JudgeSurvivors = true
 		})
 	}
-	for _, cv := range []childVar{cvPlain, cvGC} {
+	for _, cv := range []childVar{cvPlain, cvGC, cvUser} {
 		add("kill-running", cv, func(r *rand.Rand, c *Case) {
 			c.Steps = append(pre(r), sleepStep(u(r, 0, 400)), stKILL)
 			c.KilledOnRequest, c.JudgeSurvivors = true, true
@@ -276,9 +285,9 @@ func hookTemplates() []template {
 			f(r, c)
 		}})
 	}
-	for _, code := range []int{0, 2} {
+	for _, code := range []int{0, 2, 7} {
 		code := code
-		add("trigger-exit-kill", childVar{fmt.Sprintf("exit-%d", code), func(ch *ChildSpec) { ch.ExitCode = code }}, func(r *rand.Rand, c *Case) {
+		add("trigger-exit-kill", childVar{fmt.Sprintf("exit-%d", code), func(ch *ChildSpec) { ch.ExitCode = code; ch.User = ch.User || code == 7 }}, func(r *rand.Rand, c *Case) {
 			c.Child.LifeMs = u(r, 50, 300)
 			c.Steps = []Step{stLAUNCH, await("ready", 1, 5000), sleepStep(u(r, 0, 300)), stTRIGGER, await("terminal", 1, 8000), sleepStep(u(r, 0, 200)), stKILL}
 			c.JudgeSurvivors = true
@@ -350,7 +359,7 @@ func ctlTemplates(kind string) []template {
 		}
 		return []Step{stLAUNCH, await("ready", 1, 15000)}
 	}
-	for _, cv := range []childVar{cvPlain, cvIgnLing, cvGC, cvGCIgnore, cvLinger, cvTermExit} {
+	for _, cv := range []childVar{cvPlain, cvIgnLing, cvGC, cvGCIgnore, cvLinger, cvTermExit, cvUser, cvUserGC} {
 		add("kill-standby", cv, func(r *rand.Rand, c *Case) {
 			c.Steps = append(ready(r, c), sleepStep(u(r, 0, 300)), stKILL)
 			c.KilledOnRequest, c.JudgeSurvivors = true, true
@@ -390,6 +399,11 @@ func ctlTemplates(kind string) []template {
 			c.ObserveMs = codeStartupTimeoutMs + escalationMs + 2000
 		})
 	}
+	add("kill-never-ready", childVar{"nolisten-user", func(ch *ChildSpec) { ch.NeverReady = "nolisten"; ch.User = true }}, func(r *rand.Rand, c *Case) {
+		c.Steps = []Step{stLAUNCH, sleepStep(u(r, 300, 1800)), stKILL}
+		c.KilledOnRequest, c.JudgeSurvivors = true, true
+		c.ObserveMs = codeStartupTimeoutMs + escalationMs + 2000
+	})
 	add("kill-never-ready", childVar{"nolisten-ignores-signals", func(ch *ChildSpec) { ch.NeverReady = "nolisten"; ch.Ignore = true }}, func(r *rand.Rand, c *Case) {
 		// no device to walk down and nothing to connect to: only the TERM/INT/KILL escalation on the group is left
 		c.Steps = []Step{stLAUNCH, sleepStep(u(r, 300, 1800)), stKILL}
@@ -487,6 +501,31 @@ func ctlTemplates(kind string) []template {
 		c.Child.DieDelayMs = u(r, 300, 2500)
 		c.Child.DieByKill = r.Intn(2) == 0
 		walkdown(r, c, []string{"stop", "reset", "exit"}[r.Intn(3)])
+	})
+	// Transition requests with a payload that takes 100s of ms to decode (several MB of arguments),
+	// fired repeatedly while t.rpc goes away under them: the device exits on its own, the task is
+	// killed, the startup timeout strikes. The request itself is one the device rejects (STOP with a
+	// source state it is not in), so it does not interfere; what is judged is that nothing crashes.
+	storm := func(r *rand.Rand, spanMs int) Step {
+		st := Step{Op: "storm", Evt: "STOP", Src: "RUNNING", Dst: "CONFIGURED", PayloadKB: u(r, 3000, 6000)}
+		for t := u(r, 0, 120); t < spanMs; t += u(r, 90, 170) {
+			st.Offsets = append(st.Offsets, t)
+		}
+		return st
+	}
+	add("big-transitions-while-device-exits", childVar{"exit-4", func(ch *ChildSpec) { ch.ExitCode = 4 }}, func(r *rand.Rand, c *Case) {
+		c.Child.LifeMs = 2200
+		c.Steps = []Step{stLAUNCH, await("child-started", 1, 5000), await("ready", 1, 2000), Step{Op: "sleep-rel", Ms: 2200 - u(r, 900, 1100)},
+			storm(r, 2000), sleepStep(2200), await("terminal", 1, 10000)}
+	})
+	add("big-transitions-while-killed", cvPlain, func(r *rand.Rand, c *Case) {
+		c.Steps = append(ready(r, c), storm(r, 2400), sleepStep(u(r, 700, 1100)), stKILL)
+		c.KilledOnRequest, c.JudgeSurvivors = true, true
+	})
+	add("big-transitions-at-startup-timeout", childVar{"nostate", func(ch *ChildSpec) { ch.NeverReady = "nostate" }}, func(r *rand.Rand, c *Case) {
+		// the client is connected long before the timeout, so the requests are accepted until t.rpc is reset
+		c.Steps = []Step{stLAUNCH, sleepStep(codeStartupTimeoutMs - u(r, 1400, 1800)), storm(r, 3500), await("terminal", 1, 15000), sleepStep(1500), stKILL}
+		c.JudgeSurvivors = true
 	})
 	add("kill-twice", cvPlain, func(r *rand.Rand, c *Case) {
 		c.Steps = append(ready(r, c), stKILL, sleepStep(u(r, 0, 200)), stKILL)
